@@ -55,7 +55,7 @@ CHECKS.update({
         design='4/C03'),
     'C04': dict(level='other', technique='abstract interpretation on accumulator-state x operand cells, term-mode expansion of operand spellings, dependence slices, rounding cells of the accumulator for to_posit',
         text=('is_zero/is_nar decided for every accumulator state (all limbs), to_posit returns 0/NaR exactly there; NaR stickiness and zero operands for all base spellings; every tuple/array `+=`/`-=` spelling expands to the '
-              'expected products with the expected sign; every base spelling applied to the cleared quire with one posit (other factor ONE) leaves exactly +/-p for every p; accumulated value depends on flag, operands, accumulator; to_posit is proved to be the single posit-rule rounding of the fixed-point value of the state on rounding cells of the accumulator (every state for Q8E0; every leading-one position with sampled sticky / lowest-set-bit positions for Q16E1 and Q32E2); accumulate sequences whose exact sum is a tie, a near-tie or cancels are decided singly. That the accumulate leaves exactly the sum in the quire (product placement, carries) is NOT decided beyond those sequences.'), design='4/C04'),
+              'expected products with the expected sign; every base spelling applied to the cleared quire with one posit (other factor ONE) leaves exactly +/-p for every p; accumulated value depends on flag, operands, accumulator; to_posit is proved to be the single posit-rule rounding of the fixed-point value of the state on rounding cells of the accumulator (every state for Q8E0; every leading-one position with sampled sticky / lowest-set-bit positions for Q16E1 and Q32E2); accumulate sequences whose exact sum is a tie, a near-tie or cancels are decided singly. After accumulating p * 2^t (every posit p, symbolic) onto the cleared quire or onto a constant with a carry chain the accumulator holds exactly the fixed-point image of the sum (QIMAGE). The accumulate of two dense significands onto an arbitrary accumulator is NOT decided beyond the probed sequences.'), design='4/C04'),
     'C12': dict(level='other', technique='term-mode evaluation + state-cell abstract interpretation + bit routing per regime cell',
         text=('from_bits(to_bits(q)) = q, clear(), neg() on every zero/non-zero limb pattern (incl. 512-bit Q32E2), the to_posit / -= alternation of into_two/three_posits, From<P> for Q = ZERO += (p, ONE); '
               'posit->quire->posit proved the identity for every P8E0, P16E1 and P32E2 bit pattern (regime cells refined by the lowest set fraction bit); q += p / q -= p on the cleared quire leave exactly +p / -p for every p. Exactness of the subtractions inside the residual split for a non-zero accumulator NOT decided.'), design='4/C12'),
